@@ -720,6 +720,52 @@ def unchanged_case(item):
     return res
 
 
+def bytes_case(item):
+    """Script output is bytes: a line that is not UTF-8 (latin-1) and a multi-byte character written in two pieces with a pause
+    must not end the viewer; what follows - in the same script, in its parent - is shown, live and in the replay."""
+    _, j, seed = item
+    files = {
+        'x.do': scen.TRACE_HDR + ('echo "S $1 $$ $PPID" >&9\necho "x#0 before" >&2\nprintf "x#1 latin1 caf\\351 here\\n" >&2\nprintf "x#2 split \\303" >&2\nsleep 0.25\n'
+                                  'printf "\\251 joined\\n" >&2\nprintf "x#3 lone \\200\\277 bytes\\n" >&2\necho "x#4 after" >&2\necho x > "$3"\necho "E $1 $$ 0" >&9\n'),
+        'top.do': scen.TRACE_HDR + 'echo "S $1 $$ $PPID" >&9\necho "top#0 before" >&2\nredo-ifchange x\necho "top#1 after" >&2\necho t > "$3"\necho "E $1 $$ 0" >&9\n',
+    }
+    pj = scen.Project(files, 'c18b')
+    anoms = []
+    obs = dict(builds=1, non_utf8_cases=1)
+    want = {'x': ['x#0 before', 'x#1 latin1 caf� here', 'x#2 split é joined', None, 'x#4 after'], 'top': ['top#0 before', 'top#1 after']}
+    try:
+        import subprocess
+        p = subprocess.run(['redo', '-j%d' % j, 'top'], cwd=pj.top, env=pj.env({'REDO_PRETTY': '0'}, verif_log=False), stdin=subprocess.DEVNULL,
+                           stdout=subprocess.PIPE, stderr=subprocess.STDOUT, timeout=60)
+        text = p.stdout.decode('utf-8', 'replace')
+        if p.returncode != 0:
+            anoms.append(dict(key='bytes:build-failed', what=text[-300:]))
+        p2 = subprocess.run(['redo-log', '-r', '--no-pretty', 'top'], cwd=pj.top, env=pj.env(verif_log=False), stdin=subprocess.DEVNULL,
+                            stdout=subprocess.PIPE, stderr=subprocess.STDOUT, timeout=60)
+        streams = [('live', text), ('replay', p2.stdout.decode('utf-8', 'replace'))]
+        for what, stream in streams:
+            if 'did not contain valid UTF-8' in stream or re.search(r'redo-log: .*[Ee]rror', stream):
+                anoms.append(dict(key='%s:viewer-gave-up:output-that-is-not-utf-8' % what, what='the viewer stopped: %s' % [l for l in stream.split('\n') if 'UTF-8' in l or 'rror' in l][:2]))
+            per, recs, problems = attribute(stream)
+            per = {os.path.normpath(k): [g.rstrip() for g in v] for k, v in per.items()}
+            for n, ls in want.items():
+                got = per.get(n, [])
+                ok = len(got) == len(ls) and all(w is None or w == g for w, g in zip(ls, got)) and (n != 'x' or got[3].startswith('x#3 lone '))
+                if not ok and not any(a['key'].startswith(what) for a in anoms):
+                    anoms.append(dict(key='%s:lines-lost:output-that-is-not-utf-8' % what, what='%s: the %s output shows %r, the script wrote %r (invalid bytes shown as U+FFFD)' % (n, what, got, ls)))
+            obs['non_utf8_lines_attributed'] = obs.get('non_utf8_lines_attributed', 0) + sum(len(v) for v in per.values())
+    except subprocess.TimeoutExpired:
+        return dict(verdict='inconclusive', why='watchdog', sample=dict(item=list(item)))
+    finally:
+        pj.close()
+    res = dict(verdict='violated' if anoms else 'held', nontrivial=True, shape=common.shash(list(item)),
+               sample=dict(kind='output-that-is-not-utf-8', j=j), obs=obs, sets=dict(segments=['non-utf-8']))
+    if anoms:
+        res['violations'] = anoms[:4]
+        res['replay'] = dict(kind='bytes', item=list(item))
+    return res
+
+
 def direct_case(item):
     _, seed, n = item
     rnd = random.Random(seed)
@@ -829,6 +875,8 @@ def dispatch(item):
         return partial_case(item)
     if item[0] == 'unchanged':
         return unchanged_case(item)
+    if item[0] == 'bytes':
+        return bytes_case(item)
     return direct_case(item) if item[0] == 'direct' else case(item)
 
 
@@ -839,7 +887,7 @@ RULE = ('generated graphs of 3-25 writer scripts (nested and shared children) at
         'top-level command and the output of `redo-log -r --no-pretty` (from the project top and from a sub-directory) are attributed to '
         'targets by the do/resumed/done records (a record may be glued to an unterminated line); for every script that ran to its end the '
         'attributed lines must equal the written ones exactly (after trailing-whitespace stripping), no id-ed line may appear under another '
-        'target, each executed target has one do and one done record with its exit status. Two-spellings layer: a dependency that writes to stderr is asked for from two directories through different spellings (x, ../x, absolute, detours, a symlinked name of the directory), the second request during or after its build: each of its lines appears once, under its own name, live and in the replay. Unchanged-record layer: a target is rebuilt while its dependency is up to date; `redo-log -r -u` shows the lines of the dependency once under its name and the lines of the target under the target. Piece-before-nested layer: a script writes a piece of a line and then asks for a dependency that is built (its record lands behind the piece on the same line): the lines of the dependency appear once under its name, the pieces of the script once under the script. Odd-names layer: targets whose names end or begin with a blank or a tab: lines stay under the exact name, the viewer does not give up. Direct layer: format->parse round trips of the '
+        'target, each executed target has one do and one done record with its exit status. Two-spellings layer: a dependency that writes to stderr is asked for from two directories through different spellings (x, ../x, absolute, detours, a symlinked name of the directory), the second request during or after its build: each of its lines appears once, under its own name, live and in the replay. Non-UTF-8 layer: a script writes a latin-1 line, a multi-byte character in two pieces with a pause, and lone continuation bytes: the viewer goes on, every other line is shown under its target (invalid bytes as U+FFFD), live and in the replay. Unchanged-record layer: a target is rebuilt while its dependency is up to date; `redo-log -r -u` shows the lines of the dependency once under its name and the lines of the target under the target. Piece-before-nested layer: a script writes a piece of a line and then asks for a dependency that is built (its record lands behind the piece on the same line): the lines of the dependency appear once under its name, the pieces of the script once under the script. Odd-names layer: targets whose names end or begin with a blank or a tab: lines stay under the exact name, the viewer does not give up. Direct layer: format->parse round trips of the '
         'record type for the fixed kind vocabulary x pids x timestamps x texts (incl. "@@ ", "@@REDO:", ":", unicode), plus the same under '
         'Miri (thorough).')
 ASSUME = ['script output that contains a syntactically valid record is in-band forgery and is not generated', 'pretty mode is presentation and is not compared',
@@ -871,6 +919,9 @@ def main(tier):
     for j in (1, 3):
         for rep in range(1 if quick else 4):
             items.append(('unchanged', j, rep))
+    for j in (1, 3):
+        for rep in range(1 if quick else 4):
+            items.append(('bytes', j, rep))
     for j in (1, 3):
         for nf in (False, True):
             for rep in range(1 if quick else 5):
